@@ -80,3 +80,112 @@ def register(reg):
                                            "key == keyof(tr(src_j[(key, 0)])[src_p[(key, 0)]])))",
         },
     ))
+
+
+# ---------------------------------------------------------------------------------------------------------
+# convert_coord, whole function, once per shape of the stable path column (same two shapes as conversion.to_unstable):
+#   #bare       one bare contig name; the interval is columns 8/9 of the record
+#   #intervals  alternating orientation / CONTIG:START-END tokens
+# ghost lo[t] / hi[t]: first / last segment of token t's contig overlapping the token's interval; OUT[t]: ids emitted before token t
+def cc_macros(shape):
+    m = {
+        "tok": "lambda t: tokens_of(line[5])[t]", "ntok": "lambda: len(tokens_of(line[5]))",
+        "isori": "lambda t: tokens_of(line[5])[t] == '>' or tokens_of(line[5])[t] == '<'",
+        "R": "lambda t: ref[ctg(t)]", "nout": "lambda t: hi[t] - lo[t] + 1",
+        "so": "lambda t, i: SO[(t, i)]", "en": "lambda t, i: EN[(t, i)]", "ctg": "lambda t: CT[t]", "qs": "lambda t: QS[t]", "qe": "lambda t: QE[t]",
+        "body": "lambda t: BODY[t]",
+    }
+    return m
+
+
+def cc_requires(shape):
+    r = []
+    if shape == "bare":
+        r += ["ntok() == 1", "not isori(0) and tok(0) != '' and not (str_contains(tok(0), ':') and str_contains(tok(0), '-'))",
+              "BODY[0] and CT[0] == tok(0) and QS[0] == int(line[7]) and QE[0] == int(line[8])"]
+    else:
+        r += ["ntok() >= 2 and ntok() % 2 == 0",
+              "forall(lambda t: implies(0 <= t < ntok() and t % 2 == 0, isori(t)))",
+              "forall(lambda t: implies(0 <= t < ntok() and t % 2 == 1, not isori(t) and tok(t) != '' and str_contains(tok(t), ':') and str_contains(tok(t), '-') and "
+              "len(split_colon(rstrip(tok(t)))) == 2 and len(split_dash(rstrip(split_colon(rstrip(tok(t)))[1]))) == 2))",
+              "forall(lambda t: implies(0 <= t < ntok(), BODY[t] == (t % 2 == 1)))",
+              "forall(lambda t: implies(0 <= t < ntok() and t % 2 == 1, CT[t] == split_colon(rstrip(tok(t)))[0] and "
+              "QS[t] == int(split_dash(rstrip(split_colon(rstrip(tok(t)))[1]))[0]) and QE[t] == int(split_dash(rstrip(split_colon(rstrip(tok(t)))[1]))[1])))"]
+    r += [
+        "len(line) >= 9",
+        # definitions of the ghost names for segment starts / ends
+        "forall(lambda t, i: implies(0 <= t < ntok() and BODY[t] and 0 <= i < len(ref[CT[t]]), "
+        "SO[(t, i)] == int(ref[CT[t]][i].tags['SO'][1]) and EN[(t, i)] == int(ref[CT[t]][i].tags['SO'][1]) + int(ref[CT[t]][i].tags['LN'][1])))",
+        # valid record over a valid rGFA: known contigs, non-empty intervals, segments sorted and disjoint, something overlaps
+        "forall(lambda t: implies(0 <= t < ntok() and body(t), ctg(t) in ref and 0 <= qs(t) < qe(t)))",
+        "forall(lambda t, i: implies(0 <= t < ntok() and body(t) and 0 <= i < len(R(t)), 'SO' in R(t)[i].tags and 'LN' in R(t)[i].tags and 0 <= so(t, i) < en(t, i)))",
+        "forall(lambda t, i, j: implies(0 <= t < ntok() and body(t) and 0 <= i < j < len(R(t)), en(t, i) <= so(t, j)))",
+        "forall(lambda t: implies(0 <= t < ntok() and body(t), 0 <= lo[t] <= hi[t] < len(R(t))))",
+        "forall(lambda t, i: implies(0 <= t < ntok() and body(t) and 0 <= i < len(R(t)), (lo[t] <= i <= hi[t]) == (so(t, i) < qe(t) and qs(t) < en(t, i))))",
+        "OUT[0] == 0 and forall(lambda t: implies(0 <= t < ntok(), OUT[t + 1] == OUT[t] + ite(body(t), nout(t), 0)))",
+        "forall(lambda t, u: implies(0 <= t < u <= ntok(), OUT[t] + ite(body(t), nout(t), 0) <= OUT[u])) and forall(lambda t: implies(0 <= t <= ntok(), OUT[t] >= 0))",
+    ]
+    return r
+
+
+CC_EMITTED = ("forall(lambda t, k: implies(0 <= t < {n} and body(t) and 0 <= k < nout(t), {uc}[OUT[t] + k] == R(t)[lo[t] + k].id))")
+
+
+def register_convert_coord(reg):
+    I2 = TupleT(INT, INT)
+    for shape in ("bare", "intervals"):
+        reg.add(Contract(
+            file=INDEX, func="convert_coord", variant="#" + shape, params=dict(line=LINE, ref=DictT(STR, ListT(GNode))), returns=LINE, pure=True,
+            ghost=dict(lo=IMAP, hi=IMAP, OUT=IMAP, CT=MapT(INT, STR), QS=IMAP, QE=IMAP, BODY=MapT(INT, BOOL), SO=MapT(I2, INT), EN=MapT(I2, INT), B=INT, UC0=LINE),
+            types=dict(STR=STR, INT=INT),
+            ufuns=dict(tokens_of=([STR], LINE), split_colon=([STR], LINE), split_dash=([STR], LINE), rstrip=([STR], STR), str_contains=([STR, STR], BOOL)),
+            spec_funcs=cc_macros(shape), call_ghost={"search_intervals": {"w": "lo[it1 - 1]"}},
+            locals=dict(unstable_coord=LINE),
+            requires=cc_requires(shape),
+            loops={
+                1: Loop(index="it1", fingerprint="for nd in gaf_contigs", pres_from={"emitted": ["emitted-this-token", "emitted-earlier-kept", "token"]}, invariant={
+                    "emitted-count": "len(unstable_coord) == OUT[it1]",
+                    "emitted": CC_EMITTED.format(n="it1", uc="unstable_coord"),
+                }),
+                2: Loop(index="it2", fingerprint="for node in ref[query_contig_name][start:end + 1]",
+                        pres_from={"taken": ["filter-is-covering-membership", "loop2:taken", "loop2:window", "covering-ends-in-range"],
+                                   "taken-ids": ["slice-element", "filter-is-covering-membership", "loop2:taken", "loop2:taken-ids", "loop2:window", "covering-ends-in-range"]},
+                        invariant={
+                    "window": "0 <= start <= lo[it1 - 1] and hi[it1 - 1] <= end",
+                    "taken": "len(unstable_coord) == B + ite(start + it2 <= lo[it1 - 1], 0, ite(start + it2 > hi[it1 - 1], nout(it1 - 1), start + it2 - lo[it1 - 1]))",
+                    "taken-ids": "forall(lambda j: implies(B <= j < len(unstable_coord), unstable_coord[j] == R(it1 - 1)[lo[it1 - 1] + (j - B)].id))",
+                    "prefix-kept": "forall(lambda j: implies(0 <= j < B, unstable_coord[j] == UC0[j]))",
+                }),
+            },
+            ghost_at={"before:start, end = utils.search_intervals(": "B = len(unstable_coord)\nUC0 = unstable_coord"},
+            assert_at={
+                "before:start, end = utils.search_intervals(": {
+                    "token": "nd == tok(it1 - 1) and body(it1 - 1)",
+                    "contig-decoded": "query_contig_name == ctg(it1 - 1)",
+                    "interval-decoded": "int(query_start) == qs(it1 - 1) and int(query_end) == qe(it1 - 1)",
+                    "base-is-OUT": "B == OUT[it1 - 1]",
+                    "covering-ends-in-range": "0 <= lo[it1 - 1] <= hi[it1 - 1] < len(R(it1 - 1))",
+                    "covering-ends-overlap": "so(it1 - 1, lo[it1 - 1]) < qe(it1 - 1) and qs(it1 - 1) < en(it1 - 1, lo[it1 - 1]) and "
+                                             "so(it1 - 1, hi[it1 - 1]) < qe(it1 - 1) and qs(it1 - 1) < en(it1 - 1, hi[it1 - 1])",
+                    "covering-ends-decoded": "so(it1 - 1, lo[it1 - 1]) == int(R(it1 - 1)[lo[it1 - 1]].tags['SO'][1]) and "
+                                             "en(it1 - 1, lo[it1 - 1]) == int(R(it1 - 1)[lo[it1 - 1]].tags['SO'][1]) + int(R(it1 - 1)[lo[it1 - 1]].tags['LN'][1]) and "
+                                             "so(it1 - 1, hi[it1 - 1]) == int(R(it1 - 1)[hi[it1 - 1]].tags['SO'][1]) and "
+                                             "en(it1 - 1, hi[it1 - 1]) == int(R(it1 - 1)[hi[it1 - 1]].tags['SO'][1]) + int(R(it1 - 1)[hi[it1 - 1]].tags['LN'][1])"},
+                "before:cases = -1": {
+                    "slice-element": "start + it2 - 1 < len(R(it1 - 1)) and same(node, R(it1 - 1)[start + it2 - 1])",
+                    "segment-decoded": "int(node.tags['SO'][1]) == so(it1 - 1, start + it2 - 1) and "
+                                       "int(node.tags['SO'][1]) + int(node.tags['LN'][1]) == en(it1 - 1, start + it2 - 1)"},
+                "before:if cases != -1:": {
+                    "filter-is-covering-membership": "(cases != -1) == (lo[it1 - 1] <= start + it2 - 1 <= hi[it1 - 1])"},
+                "after:for node in ref[query_contig_name][start:end + 1]": {
+                    "emitted-count-after-token": "len(unstable_coord) == OUT[it1 - 1] + nout(it1 - 1)",
+                    "emitted-this-token": {"expr": "forall(lambda k: implies(0 <= k < nout(it1 - 1), unstable_coord[OUT[it1 - 1] + k] == R(it1 - 1)[lo[it1 - 1] + k].id))",
+                                           "from": ["loop2:taken", "loop2:taken-ids", "loop2:window", "base-is-OUT", "covering-ends-in-range"]},
+                    "emitted-earlier-kept": CC_EMITTED.format(n="it1 - 1", uc="unstable_coord")},
+            },
+            ensures={
+                "one-id-per-overlapping-segment": "len(result) == OUT[ntok()]",
+                "exactly-the-overlapping-segments-in-order": CC_EMITTED.format(n="ntok()", uc="result"),
+            },
+            notes="the ids of exactly those segments of each token's contig whose stable interval overlaps the token's interval, in segment order, token after token",
+        ))
